@@ -23,7 +23,14 @@ def _item(o):
     from rsocket.frame import InvalidFrame
     if isinstance(o, InvalidFrame):
         return ('invalid',)
-    return ('frame', FR.describe(o))
+    try:
+        d = FR.describe(o)
+        for k, v in d.items():
+            if v is None and k != 'resume':
+                raise AttributeError('field %s was never decoded' % k)
+        return ('frame', d)
+    except AttributeError as e:   # a frame object whose fields were never decoded
+        return ('broken', type(o).__name__, str(e))
 
 
 async def _collect(parser, chunk, header_length):
@@ -164,6 +171,11 @@ async def _gather(ctx, corr):
                                              else 'bytes' if len(part) == len(stream) and len(stream) > 3 else 'random'))
             if len(part) > 1:
                 corr.nontriv(('s', stream, tuple(len(c) for c in part)))
+            if any(i[0] == 'broken' for i in got):
+                corr.oracle_failures.append({'what': 'an undecodable frame was handed out as a frame: %s' %
+                                                     ([i for i in got if i[0] == 'broken'][:1],),
+                                             'stream': stream.hex(), 'chunks': [c.hex() for c in part]})
+                continue
             if (got, res) != (ref, ref_res):
                 corr.oracle_failures.append({'what': 'chunking changes the decoded frames or the residual buffer',
                                              'stream': stream.hex(), 'chunks': [c.hex() for c in part]})
@@ -176,6 +188,8 @@ async def _gather(ctx, corr):
                                 'impl_items': got, 'impl_residual': res.hex() if res is not None else None}))
         # exactness oracle: items == concatenation of the per-body results
         exp = []
+        if any(i[0] == 'broken' for i in ref):
+            continue
         for _, b in bodies:
             r = FR._parse(b)
             if r[0] == 'ok':
@@ -210,6 +224,9 @@ async def _gather(ctx, corr):
         corr.evaluations += 1
         corr.count('message:empty' if not data else 'message')
         corr.nontriv(('m', data))
+        if r is not None and any(i[0] == 'broken' for i in r[0]):
+            corr.oracle_failures.append({'what': 'an undecodable message was handed out as a frame', 'message': data.hex()})
+            continue
         if r is None:
             corr.oracle_failures.append({'what': 'message-framed parse of %r does not terminate' % data.hex(),
                                          'message': data.hex()})
@@ -264,12 +281,16 @@ def replay(obj):
             r = await _run_msg(b'', bytes.fromhex(case['message']))
             if r is None:
                 return 'does not terminate'
+            if any(i[0] == 'broken' for i in r[0]):
+                return 'an undecodable message was handed out as a frame'
             data = bytes.fromhex(case['message'])
             one = FR._parse(data) if data else None
             exp = [] if not data else ([('frame', one[1])] if one[0] == 'ok' else [('invalid',)] if one[0] == 'invalid' else [])
             return None if (not data or (r[0] == exp and r[1] == b'')) else 'message does not yield its frame'
         stream = bytes.fromhex(case['stream'])
         ref = await _run_stream([stream])
+        if any(i[0] == 'broken' for i in ref[0]):
+            return 'an undecodable frame was handed out as a frame'
         if 'chunks' in case:
             got = await _run_stream([bytes.fromhex(c) for c in case['chunks']])
             tcp = await _run_tcp([bytes.fromhex(c) for c in case['chunks']])
